@@ -49,7 +49,11 @@ fn works(front: Front, o: &Opt, bps: u32, ch: u8, rate: u32, declared: bool) -> 
     let frames = 40usize;
     let mut r = Rng::new(hash_str(&format!("{front:?}{o:?}{bps}{ch}{rate}")));
     let pcm = flacref::pcm::generate(flacref::pcm::Signal::NoiseLow, ch as usize, bps, frames, &mut r);
-    let mut c = Cursor::new(Vec::new());
+    // a third of the writers are handed a sink that already holds foreign data and is positioned
+    // behind it (the stream then starts at that offset; finalize must come back to it)
+    let start = if hash_str(&format!("{o:?}{bps}{ch}{rate}{declared}")) % 3 == 0 { 29usize } else { 0 };
+    let mut c = Cursor::new(vec![0xA7u8; start]);
+    c.set_position(start as u64);
     let opts = build_options(o)?;
     let e = |s: &str, e: flac_codec::Error| format!("{s}: {e:?}");
     match front {
@@ -72,12 +76,19 @@ fn works(front: Front, o: &Opt, bps: u32, ch: u8, rate: u32, declared: bool) -> 
         }
     }
     let bytes = c.into_inner();
-    let d = decode_all(Cursor::new(&bytes[..]), Rd::SampleRead, 4096);
+    if bytes.len() < start || bytes[..start].iter().any(|b| *b != 0xA7) {
+        return Err("foreign data in front of the stream was modified".into());
+    }
+    let d = decode_all(Cursor::new(&bytes[start..]), Rd::SampleRead, 4096);
     if let Some(er) = d.error {
         return Err(format!("round trip decode: {er}"));
     }
     if d.samples != pcm {
         return Err("round trip mismatch".into());
+    }
+    // declared or not, the finished header records the final count
+    if d.meta.as_ref().and_then(|m| m.total) != Some(frames as u64) {
+        return Err(format!("final count not recorded: STREAMINFO total {:?}, {frames} PCM frames were written (stream at offset {start})", d.meta.as_ref().and_then(|m| m.total)));
     }
     Ok(())
 }
@@ -124,8 +135,7 @@ fn grid(ctx: &Ctx, rep: &mut Report) {
                     let all_legal = legal(bps, ch, rate) && opt_legal(o);
                     rep.count("grid_point", if all_legal { "documented-legal" } else { "out-of-range" });
                     rep.case_begin(&format!("grid bps {bps} ch {ch} rate {rate} {o:?} {front:?} declared {declared}"));
-                    let obs = mon::observe(|| works(front, o, bps.clamp(1, 32), ch.clamp(1, 8), rate, declared).map(|_| ()).map_err(|e| e));
-                    // the call above clamps only the *signal generation*; constructors get the raw values:
+                    // constructors get the raw values:
                     let raw = mon::observe(|| -> Result<(), String> {
                         let opts = build_options(o)?;
                         let mut c = Cursor::new(Vec::new());
@@ -149,6 +159,8 @@ fn grid(ctx: &Ctx, rep: &mut Report) {
                         Ok(Ok(())) => rep.count("constructor_outcome", "ok"),
                     }
                     if all_legal {
+                        // documented-legal point: the writer must also work end to end
+                        let obs = mon::observe(|| works(front, o, bps.clamp(1, 32), ch.clamp(1, 8), rate, declared).map(|_| ()).map_err(|e| e));
                         match obs.result {
                             Err(p) => rep.violation("panic", format!("legal-writer:{}", p.signature()), format!("writer for documented-legal parameters panicked: {} at {}", p.msg, p.location), replay()),
                             Ok(Err(e)) => rep.violation("legal-broken", format!("legal-writer-does-not-work:{}", e.split(':').next().unwrap_or("")), format!("bps {bps} ch {ch} rate {rate} {o:?} {front:?}: {e}"), replay()),
@@ -165,7 +177,7 @@ fn grid(ctx: &Ctx, rep: &mut Report) {
     // totals: boundary values
     let mut tidx = 0u64;
     for total in [0u64, 1, 2, 3, 7, (1 << 36) - 1, 1 << 36, (1 << 36) + 1, u64::MAX] {
-        for ch in [1u8, 2, 3] {
+        for ch in [0u8, 1, 2, 3, 8, 9, 255] {
             for front in [Front::Sample, Front::ByteLE, Front::Channel] {
                 tidx += 1;
                 if !ctx.mine(tidx) {
